@@ -39,7 +39,7 @@ S_EXT = ["lha_arch_exists / lha_arch_mkdir: arbitrary result per call", "lha_rea
          "getchar: arbitrary characters, lines <= 2 characters, 'n' forced in the third line", "tolower: ASCII model"]
 
 HARNESSES = [
-    dict(name="safe.output", src="C18/safe.c", defines=["N=6"], unwindset=U({"safe_output.0": 12, "harness.0": 7, "harness.1": 7}), units=["src/safe.c"], timeout=120,
+    dict(name="safe.output", src="C18/safe.c", defines=["N=6", "VAS_MAY_FAIL"], unwindset=U({"safe_output.0": 12, "harness.0": 7, "harness.1": 7}), units=["src/safe.c"], timeout=120,
          bounds="ALL strings of 0..6 bytes over 0x01..0xFF; safe_output, safe_printf(\"%s\"), safe_fprintf(stderr, \"%s\"), safe_printf(\" -> %s\")",
          stubs=[S_OUT + " and recorded", S_VAS],
          claim="length preserved; printable bytes unchanged; every byte < 0x20 or >= 0x7F written as '?'; return value = formatted length; buffer released"),
